@@ -16,10 +16,29 @@ import (
 // topFunc returns the key of the outermost function enclosing fn (closures are attributed to
 // the function they are written in).
 func topFunc(c *eng.Ctx, fn *ssa.Function) string {
-	for fn.Parent() != nil {
-		fn = fn.Parent()
+	return c.P.FuncKey(topFn(c.P, fn))
+}
+
+// topFn: the outermost function enclosing fn; the body of a goroutine that was moved out of a `go func() {…}()` literal into an
+// unexported function with that single `go` call site still belongs to the function that starts it.
+func topFn(p *eng.Prog, fn *ssa.Function) *ssa.Function {
+	for hop := 0; hop < 4; hop++ {
+		for fn.Parent() != nil {
+			fn = fn.Parent()
+		}
+		if fn.Object() == nil || fn.Object().Exported() {
+			return fn
+		}
+		callers := p.StaticCallers(fn)
+		if len(callers) != 1 {
+			return fn
+		}
+		if _, isGo := callers[0].Instr.(*ssa.Go); !isGo {
+			return fn
+		}
+		fn = callers[0].Fn
 	}
-	return c.P.FuncKey(fn)
+	return fn
 }
 
 func inList(s string, l []string) bool {
@@ -680,13 +699,17 @@ func existenceProbedBeforeCreate(c *eng.Ctx, fnKey, pageRecv string) {
 		cl, ok := in.(*ssa.Call)
 		return ok && cl.Common().StaticCallee() != nil && cl.Common().StaticCallee().Name() == "Exist"
 	})
-	probes := p.SitesDirect(f, probe)
-	acq := p.SitesDirect(f, invokeOn(pageRecv, "AcquirePage"))
+	probes := p.Sites(f, probe)
+	acq := p.Sites(f, invokeOn(pageRecv, "AcquirePage"))
 	if len(probes) == 0 || len(acq) == 0 {
 		c.Undecided("%s: %d existence probes, %d AcquirePage calls", fnKey, len(probes), len(acq))
 	}
 	for i, pr := range probes {
-		w, after := eng.Reaches(f, acq[0].Instr, []eng.Site{pr}, nil)
+		host := f
+		if pr.Instr.Parent() == acq[0].Instr.Parent() {
+			host = pr.Instr.Parent() // both in one helper
+		}
+		w, after := eng.Reaches(host, acq[0].Instr, []eng.Site{pr}, nil)
 		detail := ""
 		if after {
 			detail = "the probe at " + p.InstrPos(w) + " can run after AcquirePage created the file"
@@ -702,4 +725,71 @@ func keysOfBool(m map[string]bool) string {
 	}
 	sort.Strings(ks)
 	return strings.Join(ks, ", ")
+}
+
+// localFuncs: the function literals written in fn, plus the unexported same-package functions fn defers or starts with `go`
+// (a deferred / goroutine closure that was given a name).
+func localFuncs(fn *ssa.Function) []*ssa.Function {
+	out := append([]*ssa.Function{}, fn.AnonFuncs...)
+	for _, b := range fn.Blocks {
+		for _, in := range b.Instrs {
+			var cc *ssa.CallCommon
+			switch x := in.(type) {
+			case *ssa.Defer:
+				cc = x.Common()
+			case *ssa.Go:
+				cc = x.Common()
+			default:
+				continue
+			}
+			g := cc.StaticCallee()
+			if g == nil || g.Blocks == nil || g.Parent() != nil || g.Pkg != fn.Pkg {
+				continue
+			}
+			if g.Object() != nil && g.Object().Exported() {
+				continue
+			}
+			out = append(out, g)
+		}
+	}
+	return out
+}
+
+// closuresT: fn, the function literals nested in it, and the same for every helper fn enters transparently (a loop body that was
+// moved into a helper takes its callbacks with it).
+func closuresT(fn *ssa.Function) []*ssa.Function {
+	out := append([]*ssa.Function{}, eng.Closures(fn)...)
+	seen := map[*ssa.Function]bool{fn: true}
+	for _, b := range eng.BlocksT(fn) {
+		for _, in := range b.Instrs {
+			if g := eng.TransparentCallee(in); g != nil && !seen[g] {
+				seen[g] = true
+				out = append(out, eng.Closures(g)...)
+			}
+		}
+	}
+	return out
+}
+
+// liftTransparent: the top-level function fn is written in; when that is an unexported helper with exactly one call site, a
+// transparent one, the caller it was extracted from (repeatedly). Used where a rule names "the function that performs X".
+func liftTransparent(p *eng.Prog, fn *ssa.Function) *ssa.Function {
+	for hop := 0; hop < 3; hop++ {
+		for fn.Parent() != nil {
+			fn = fn.Parent()
+		}
+		callers := p.StaticCallers(fn)
+		if len(callers) != 1 {
+			return fn
+		}
+		cl, ok := callers[0].Instr.(*ssa.Call)
+		if !ok || eng.TransparentCallee(cl) != fn {
+			return fn
+		}
+		fn = callers[0].Fn
+	}
+	for fn.Parent() != nil {
+		fn = fn.Parent()
+	}
+	return fn
 }
